@@ -169,7 +169,20 @@ def check_query(ctx: Ctx, case) -> None:
         return
     bpm = chart.sync_track.bpm_events
     frac = False
+    # a second chart with another tempo map, alive and queried in lock-step (no shared lookup state)
+    stempo = [[t, n + 1 + n // 3] for t, n in case["tempo"]]
+    try:
+        shadow = L.parse(S.render({"res": case["res"], "sync": [[0, "TS", 4]] + [[t, "B", n] for t, n in stempo],
+                                   "events": [], "tracks": {}})).sync_track.bpm_events
+    except Exception:  # noqa: BLE001
+        shadow = None
     for t in case["ticks"]:
+        if shadow is not None:
+            try:
+                shadow.timestamp_at_tick(t)
+                shadow.timestamp_at_tick_no_optimize_return(t)
+            except Exception:  # noqa: BLE001  (the shadow is not under test)
+                pass
         for name, fn in (("no_optimize", lambda x: bpm.timestamp_at_tick_no_optimize_return(x)),
                          ("at_tick", lambda x: bpm.timestamp_at_tick(x)[0])):
             try:
